@@ -109,9 +109,13 @@ def ante (s : State) (ms : List Msg) : Option State :=
 
 /-! ### message execution -/
 
+/-- `CanTransfer` of the EVM at run time: the sender's balance (in wei) covers the value; otherwise the run ends with a VM error
+    (ErrInsufficientBalance) and nothing moves -/
+def canTransfer (s : State) (m : Msg) : Bool := decide (m.value ≤ getBal s m.sender * 10 ^ 12)
+
 /-- value moves only when the run succeeds; the value is truncated to whole unibi -/
 def moveValue (s : State) (m : Msg) : State :=
-  if (m.kind = .transfer || m.kind = .create) && decide (weiToNative m.value > 0) then
+  if (m.kind = .transfer || m.kind = .create) && decide (weiToNative m.value > 0) && canTransfer s m then
     let s1 := setBal s m.sender (getBal s m.sender - weiToNative m.value)
     setBal s1 m.to (getBal s1 m.to + weiToNative m.value)
   else s
